@@ -446,6 +446,14 @@ def part_tol(pid):
     return run
 
 
+def part_round3(ctx):
+    from . import rules_sym
+    n = rules_sym.check_round3(ctx, module(CFG[0], "ssa"), CFG[0])
+    ctx.explanation += ("R-SYM round3: the helper that turns an interpolated cube-coordinate point of the path into a cell converts its three coordinates alike, each "
+                        "to the nearest integer (a directed conversion of one of them is reported). ")
+    ctx.floor("R-SYM", "cube rounding helpers reachable from gridPathCells", n, 1)
+
+
 def part_qloop(ctx):
     from . import rules_qloop
     try:
@@ -517,7 +525,7 @@ PARTS = {
     "C10": [part_guards("C10"), part_errflow("C10"), part_bitprov("indexops", "C10"), part_tables(["T8", "T12"], pid="C10"), part_cform("C10"), part_fold("C10"), part_slice, part_wit("C10")],
     "C11": [part_guards("C11"), part_errflow("C11"), part_tables(["T8", "T12", "T7"], {"T7": ["pentagonDirectionFaces"]}, pid="C11"), part_slice, part_wit("C11")],
     "C12": [part_guards("C12"), part_bitprov("validity"), part_bitprov("indexops", "C12"), part_ret, part_errdisc, part_errflow("C12"), part_ovf, part_idx, part_unitvec, part_bw(None), part_hashmod(None, 5), part_cform("C12"), part_wit("C12")],
-    "C13": [part_guards("C13"), part_errflow("C13"), part_bitprov("indexops", "C13"), part_cform("C13"), part_wit("C13")], "C14": [part_guards("C14"), part_errflow("C14"), part_bw("C14"), part_cform("C14"), part_tables(["T14", "T20", "T21", "T22"], pid="C14"), part_unitvec], "C15": [part_guards("C15"), part_errflow("C15"), part_bw("C15"), part_sib, part_gate, part_qloop, part_tables(["T17", "T18"], pid="C15"), part_wit("C15")],
+    "C13": [part_guards("C13"), part_errflow("C13"), part_bitprov("indexops", "C13"), part_cform("C13"), part_wit("C13")], "C14": [part_guards("C14"), part_errflow("C14"), part_bw("C14"), part_cform("C14"), part_tables(["T14", "T20", "T21", "T22"], pid="C14"), part_unitvec, part_round3], "C15": [part_guards("C15"), part_errflow("C15"), part_bw("C15"), part_sib, part_gate, part_qloop, part_tables(["T17", "T18"], pid="C15"), part_wit("C15")],
     "C19": [part_guards("C19"), part_tables(["T5", "T9"], pid="C19"), part_bw("C19"), part_cform("C19"), part_wit("C19")],
     "C20": [part_guards("C20"), part_fmt, part_wit("C20")],
 }
@@ -564,7 +572,9 @@ def C16(ctx):
                        "findPolygonForHole, addVertexNode, builders): scratch arrays freed on every path, no double free. R-OWN L2-L5: a local vertex "
                        "graph is destroyed on every path after initialisation (a failing initialiser destroys it itself), cellsToLinkedMultiPolygon "
                        "destroys the result before returning an error, normalizeMultiPolygon frees a hole it cannot place, and every struct type the "
-                       "builders allocate is freed in the call tree of destroyLinkedMultiPolygon / destroyVertexGraph. R-TOL: the tolerance with which edge end points are matched (geoAlmostEqualThreshold) is a constant below a quarter of the average res-15 edge in radians.")
+                       "builders allocate is freed in the call tree of destroyLinkedMultiPolygon / destroyVertexGraph. R-TOL: the tolerance with which edge end points are matched (geoAlmostEqualThreshold) is a constant below a quarter of the average res-15 edge in radians. "
+                       "R-SYM selfexcl: a function that counts the polygons of a list containing a loop taken from that same list calls the containment test only on the "
+                       "not-equal edge of a comparison between the tested loop and that loop (a loop is never tested against itself).")
     for cfg in (["release", "assert"] if ctx.tier == "thorough" else ["release"]):
         m = module(cfg, "ssa")
         cg = rules_alloc.call_graph(m)
@@ -584,6 +594,8 @@ def C16(ctx):
             rules_linked.check_hole_loop(ctx, m, cfg)
         except AnalysisBroken as e:
             ctx.broken("R-OWN", "L7: %s" % e)
+        from . import rules_sym
+        ctx.floor("R-SYM", "container counts over a list that holds the tested loop (%s)" % cfg, rules_sym.check_selfexcl(ctx, m, cfg), 1)
         from . import rules_tol
         try:
             ctx.floor("R-TOL", "coordinate-equality tolerances (%s)" % cfg, rules_tol.check(ctx, m, cfg, fns | {"geoAlmostEqual"}), 1)
